@@ -18,6 +18,7 @@ Tie (DESIGN.md 3.2 / section 7 C06):
         model evaluates the same tree with the C07 `Poly` model instantiated at stream coefficients.
 """
 import ast
+import json
 import re
 import warnings
 from fractions import Fraction
@@ -64,6 +65,10 @@ MANIFEST = {
                  "difference equation with the n-th coefficient values over unbounded histories = the indexed "
                  "sentence of the property; variable-gain rewriting; element-wise algebra through the C07 Laurent "
                  "homomorphism) + translator tie T3 + exact I/O and pull-count differential",
+    "note": "28 theorems; one PENDING statement (end to end from raw constructor pairs: the mkPoly/normalise/dense "
+            "pipeline on Stream-valued dictionaries, proved in C04 for field-valued ones, carried by the tie here); "
+            "D13 (coefficient stream ending before the input -> RuntimeError, PEP 479) recorded as known with "
+            "proposed_fixes/D13-coefficient-stream-end.diff",
 }
 
 # ---------------------------------------------------------------------------------------------
@@ -289,6 +294,15 @@ def _build_call(c, srcs):
         d = sum(z ** -k * v for k, v in den)
         return n / d
     cls = LinearFilter if route == "linear" else ZFilter
+    if c.get("numdiv") is not None or c.get("dendiv") is not None:
+        # Poly.__truediv__ by a Stream: thub(other, len(self)), every coefficient / its own copy
+        from audiolazy import Poly, Stream
+        pn, pd = Poly(dict(num)), Poly(dict(den))
+        if c.get("numdiv") is not None:
+            pn = pn / Stream(srcs[c["numdiv"]["src"]])
+        if c.get("dendiv") is not None:
+            pd = pd / Stream(srcs[c["dendiv"]["src"]])
+        return cls(pn, pd)
     return cls(dict(num), dict(den))
 
 
@@ -413,6 +427,9 @@ def request(c):
     else:
         r["num"] = [[k, _coef_req(c, v, n)] for k, v in c["num"]]
         r["den"] = [[k, _coef_req(c, v, n)] for k, v in c["den"]]
+        for f in ("numdiv", "dendiv"):
+            if c.get(f) is not None:
+                r[f] = _coef_req(c, c[f], n)
     if c.get("mem") is not None:
         r["mem"] = {"kind": "iter", "vals": [exact(v) for v in c["mem"]["vals"]]}
     return r
@@ -441,8 +458,17 @@ def _pure_d13(probs):
             and probs[1][0] == "spec" and probs[1][1].startswith("RuntimeError instead of the end"))
 
 
+_VERDICT = {}          # case key -> was its mismatch exactly the known defect D13?
+
+
+def _ckey(c):
+    return json.dumps({k: v for k, v in c.items() if k != "_noD13"}, sort_keys=True)
+
+
 def compare(c, io, drv):
     probs = _compare(c, io, drv)
+    if probs and len(_VERDICT) < 200000:
+        _VERDICT[_ckey(c)] = _pure_d13(probs)
     if c.get("_noD13") and _pure_d13(probs):
         # a shrinking candidate of a failure that is NOT the known defect D13: do not let the
         # minimisation drift into D13 (which would then be reported as the known finding)
@@ -566,7 +592,12 @@ def _used_sources(c, io, model):
         # a Stream multiplied into a term that the arithmetic dropped (`f * 0`) is no coefficient any
         # more: such a source is never read at all; every other one is read once per output
         return {i for i, p in enumerate(io.get("pulls", [])) if p != 0}
-    return {v["src"] for _, v in c["num"] + c["den"] if is_src(v)}
+    used = {v["src"] for _, v in c["num"] + c["den"] if is_src(v)}
+    for f, side in (("numdiv", "num"), ("dendiv", "den")):
+        # dividing the empty polynomial asks for no copy of the divisor (thub(other, 0))
+        if c.get(f) is not None and any(is_src(v) or val(v) != 0 for _, v in c[side]):
+            used.add(c[f]["src"])
+    return used
 
 
 def _tree_sources(t):
@@ -581,6 +612,8 @@ def _model_positions(c, model):
     """final pulls per source predicted by the model's iterator positions (entry call, no gain path)"""
     # delays after normalisation: the model lists [delay, consumed] in ascending delay; the case lists
     # sources by raw power; both ascending in the same order
+    if c.get("numdiv") is not None or c.get("dendiv") is not None:
+        return None
     pos = {}
     nsrc = sorted((k, v["src"]) for k, v in c["num"] if is_src(v))
     dsrc = sorted((k, v["src"]) for k, v in c["den"] if is_src(v))
@@ -714,9 +747,15 @@ def _call_case(rng, max_len, p_stream=0.45, malformed=False):
     mem = None
     if rng.random() < 0.25:
         mem = {"vals": [_sample(rng) for _ in range(lm + rng.choice([0, 0, 1]))]}
-    return {"entry": "call", "route": route, "num": num, "den": den, "srcs": srcs,
+    case = {"entry": "call", "route": route, "num": num, "den": den, "srcs": srcs,
             "mem": mem, "zero": rng.choice(["0/1", "0/1", "0/1", "7/1", "-2/1"]),
             "xs": [_sample(rng) for _ in range(n)]}
+    if route in ("dict", "linear") and rng.random() < 0.3:
+        for f in ("numdiv", "dendiv"):
+            if rng.random() < 0.6:
+                srcs.append(_source(rng, n, GVAL_POOL, early=None if end_early else False))
+                case[f] = {"src": len(srcs) - 1}
+    return case
 
 
 def _num_tree(rng, srcs, n, pool, allow_const=True):
@@ -871,12 +910,17 @@ def _renumber(c):
     """drop the sources no coefficient refers to"""
     if c["entry"] != "call":
         return c
-    used = sorted({v["src"] for _, v in c["num"] + c["den"] if is_src(v)})
+    used = sorted({v["src"] for _, v in c["num"] + c["den"] if is_src(v)}
+                  | {c[f]["src"] for f in ("numdiv", "dendiv") if c.get(f) is not None})
     if used == list(range(len(c["srcs"]))):
         return c
     ren = {old: new for new, old in enumerate(used)}
     f = lambda lst: [[k, {"src": ren[v["src"]]} if is_src(v) else v] for k, v in lst]
-    return dict(c, num=f(c["num"]), den=f(c["den"]), srcs=[c["srcs"][i] for i in used])
+    out = dict(c, num=f(c["num"]), den=f(c["den"]), srcs=[c["srcs"][i] for i in used])
+    for g in ("numdiv", "dendiv"):
+        if c.get(g) is not None:
+            out[g] = {"src": ren[c[g]["src"]]}
+    return out
 
 
 def _early(c):
@@ -885,7 +929,8 @@ def _early(c):
 
 
 def shrink(c):
-    mark = bool(c.get("_noD13")) or not _early(c)
+    verdict = _VERDICT.get(_ckey(c))
+    mark = bool(c.get("_noD13")) or (verdict is False) or (verdict is None and not _early(c))
     for cand in _shrink(c):
         yield dict(cand, _noD13=True) if mark else cand
 
@@ -920,10 +965,13 @@ def _shrink(c):
                     yield _renumber(dict(c, **{side: ps[:i] + [[k, 1]] + ps[i + 1:]}))
                 elif v not in (0, 1):
                     yield dict(c, **{side: ps[:i] + [[k, 1]] + ps[i + 1:]})
-        if c.get("route") != "dict":
+        if c.get("route") != "dict" and c.get("numdiv") is None and c.get("dendiv") is None:
             yield dict(c, route="dict")
+        for g in ("numdiv", "dendiv"):
+            if c.get(g) is not None:
+                yield _renumber({k: v for k, v in c.items() if k != g})
     else:
-        for t in _tree_shrinks(c["tree"]):
+        for t in _tree_shrinks(c["tree"], c["srcs"]):
             yield dict(c, tree=t)
 
 
@@ -943,13 +991,15 @@ def _const_only(t):
     return all(_const_only(u) for u in t[1:])
 
 
-def _valid_tree(t):
-    """stays in the exact regime: no division by a plain number (1/int is a float in Python)"""
+def _valid_tree(t, srcs):
+    """stays inside the property and the exact regime: a non-filter divisor is a Stream leaf without
+    a zero item (no division by a plain number: 1/int is a float in Python; no 1/0 inside a Stream)"""
     if t[0] in ("z", "c", "s"):
         return True
-    if t[0] == "div" and not _is_filter(t[2]) and _const_only(t[2]):
-        return False
-    return all(_valid_tree(u) for u in t[1:])
+    if t[0] == "div" and not _is_filter(t[2]):
+        if t[2][0] != "s" or any(val(v) == 0 for v in srcs[t[2][1]]["vals"]):
+            return False
+    return all(_valid_tree(u, srcs) for u in t[1:])
 
 
 def _tree_shrinks_raw(t):
@@ -966,9 +1016,9 @@ def _tree_shrinks_raw(t):
             yield t[:i] + [u] + t[i + 1:]
 
 
-def _tree_shrinks(t):
+def _tree_shrinks(t, srcs):
     for u in _tree_shrinks_raw(t):
-        if _is_filter(u) and _valid_tree(u):
+        if _is_filter(u) and _valid_tree(u, srcs):
             yield u
 
 
